@@ -772,9 +772,25 @@ def _framing(r, p):
     lp2 = [n for n in walk_function(sp.node) if isinstance(n, ast.For)]
     okk = False
     if len(lp2) == 1:
-        ifs = [s for s in lp2[0].body if isinstance(s, ast.If)]
-        if len(ifs) == 1 and "carriage_return" in norm(ifs[0].test) and any(isinstance(x, ast.Call) and norm(x.func).endswith(".append") and norm(x.args[0]) == norm(lp2[0].target) for s in ifs[0].orelse for x in ast.walk(s)):
-            okk = True
+        # the loop element is appended on every iteration on which it is not a carriage return (either polarity / shape)
+        from ..flow import Facts as _Facts
+
+        fsp = _Facts(sp.node)
+        el = norm(lp2[0].target)
+        for x in ast.walk(lp2[0]):
+            if isinstance(x, ast.Call) and norm(x.func).endswith(".append") and x.args and norm(x.args[0]) == el:
+                conds = fsp.conds_at(x)
+                canon = set()
+                for t, pol in conds:
+                    t = t.strip()
+                    while t.startswith("not "):
+                        t = t[4:].strip()
+                        if t.startswith("(") and t.endswith(")"):
+                            t = t[1:-1].strip()
+                        pol = not pol
+                    canon.add((t, pol))
+                if all("carriage_return" in t and pol is False and el in t for t, pol in canon):
+                    okk = True
     if okk:
         r.ok("C04.classify", sp.key, "every non-carriage-return token lands in exactly one line")
     else:
